@@ -98,6 +98,26 @@ def strip_t(reg, st, s, cls="WS"):
     return rstrip_t(reg, st, lstrip_t(reg, st, s, cls), cls)
 
 
+class RevFact:
+    """rev(s)[j] == s[len(s)-1-j]"""
+
+    def __init__(self, r, s):
+        self.mt, self.seq, self.s = r, s, s
+        self.label = "ax:reverse"
+
+    def instance(self, j):
+        n = z3.Length(self.seq)
+        return z3.Implies(z3.And(j >= 0, j < n), self.mt[j] == self.seq[n - 1 - j])
+
+
+def seq_rev(reg, st, t):
+    f = uf("seq_rev_" + str(t.sort()).replace(" ", "_").replace("(", "").replace(")", ""), t.sort(), t.sort())
+    r = f(t)
+    st.assume(z3.Length(r) == z3.Length(t), "ax:reverse-len")
+    reg.qfacts.append(RevFact(r, t))
+    return r
+
+
 _UF = {}
 
 
@@ -319,6 +339,10 @@ def call_builtin(ex, reg, st, f: VBuiltin, args, kwargs, node):
                 a = st.cell(v).fields["args"]
                 if isinstance(a, VTuple) and len(a.items) == 1:
                     return [(st, a.items[0])]
+            if isinstance(v, VRec) and "args" in v.ty.index:
+                a = from_term(v.ty.get(v.t, "args"), v.ty.index["args"][0])
+                if isinstance(a, VTuple) and len(a.items) == 1:
+                    return [(st, a.items[0])]
             raise EngineUnsupported(f"str() of {v!r}")
         if name in ("list", "tuple"):
             if not args:
@@ -383,9 +407,8 @@ def call_builtin(ex, reg, st, f: VBuiltin, args, kwargs, node):
                 raise EngineUnsupported(f"re.split pattern {pat!r}")
             P = first_pair(reg, st, s.t, shape[1], shape[2])
             head = z3.If(P >= 0, z3.SubSeq(s.t, ival(0), P), s.t)
-            r = fresh(z3.SeqSort(STR), "resplit")
-            st.assume(z3.And(z3.Length(r) >= 1, r[0] == head), "ax:re.split-head")
-            return [(st, VSeq(T_STR, r))]
+            rest = fresh(z3.SeqSort(STR), "resplit_rest")
+            return [(st, VSeq(T_STR, z3.Concat(z3.Unit(head), rest)))]
         if name == "re.search":
             pat = _const_pattern(args[0])
             shape = parse_regex_shape(pat)
@@ -467,6 +490,19 @@ def call_builtin(ex, reg, st, f: VBuiltin, args, kwargs, node):
         if name == "extend":
             ex.list_extend(st, recv, args[0], node)
             return [(st, VNone)]
+        if name == "extendleft":
+            # deque.extendleft(xs): xs is prepended in reverse order
+            v = args[0]
+            el, t = ex.as_seq(st, v)
+            if t is None:
+                return [(st, VNone)]
+            if c.elem is None:
+                if c.items:
+                    raise EngineUnsupported("extendleft on python-level list")
+                st.set_cell(recv, ListCell(el, seq_rev(reg, st, t), None, c.owner))
+            else:
+                st.set_cell(recv, ListCell(c.elem, z3.Concat(seq_rev(reg, st, t), c.seq), None, c.owner))
+            return [(st, VNone)]
         if name in ("pop", "popleft"):
             if name == "pop" and args:
                 raise EngineUnsupported("pop(index)")
@@ -511,7 +547,7 @@ def split_char(reg, st, s, cp):
     """s.split(chr(cp)) as an uninterpreted Seq(Str) with the offset characterisation (validated vs CPython)."""
     f = uf("split_%d" % cp, STR, z3.SeqSort(STR))
     items = f(s)
-    off = split_off(cp)
+    off = split_off(reg)
     key = ("split", cp, s.get_id())
     if key not in st.ghost.setdefault("$ax", set()):
         st.ghost["$ax"] = set(st.ghost["$ax"]) | {key}
@@ -525,15 +561,16 @@ def split_char(reg, st, s, cp):
 _OFF = {}
 
 
-def split_off(cp):
-    """off(items, k) = sum_{j<k} (len(items[j]) + 1)"""
-    if cp not in _OFF:
-        f = z3.RecFunction("split_off_%d" % cp, z3.SeqSort(STR), INT, INT)
-        xs = z3.Const("xs", z3.SeqSort(STR))
-        k = z3.Int("k")
-        z3.RecAddDefinition(f, [xs, k], z3.If(k <= 0, 0, f(xs, k - 1) + z3.Length(xs[k - 1]) + 1))
-        _OFF[cp] = f
-    return _OFF[cp]
+def split_off(reg):
+    """off(items, k) = sum_{j<k} (len(items[j]) + 1): uninterpreted, with its defining equation registered as a FoldDef."""
+    if "off" not in _OFF:
+        f = z3.Function("split_off", z3.SeqSort(STR), INT, INT)
+        xs = z3.Const("oxs", z3.SeqSort(STR))
+        k = z3.Int("ok")
+        _OFF["off"] = f
+        _OFF["def"] = FoldDef(f, [xs, k], z3.If(k <= 0, ival(0), f(xs, k - 1) + z3.Length(xs[k - 1]) + 1))
+    reg.fold_defs["split_off"] = _OFF["def"]
+    return _OFF["off"]
 
 
 class SplitFact:
@@ -636,6 +673,14 @@ def spec_builtin(ex, reg, st, name, args, kwargs, node) -> Val:
         v = args[0]
         k = ex.concrete_key(args[1])
         return VBool(ex.contains(st, v, args[1]))
+    if name == "split_off":
+        el, t = ex.as_seq(st, args[0])
+        return VInt(split_off(reg)(t, ex.as_int(args[1])))
+    if name == "split_on":
+        sep = concrete_str(S(1))
+        return VSeq(T_STR, split_char(reg, st, S(0), ord(sep)))
+    if name == "first_ws_hash":
+        return VInt(first_pair(reg, st, S(0), "WS", "SET:35"))
     if name == "char_at":
         return VInt(S(0)[ex.as_int(args[1])])
     if name == "first_index":
